@@ -44,6 +44,12 @@ Example C18_hard_ok_on_short_strings :
           ["position_gfa2"; "oriented_identifier_list_gfa2"] = true.
 Proof. vm_compute. reflexivity. Qed.
 
+(* the thresholds of the levels are read from the source: validation at the assignment from level 3, at the write from
+   level 2, safe parsing at construction from level 1 *)
+Theorem C18_thresholds_in_the_source : set_level = 3%nat /\ write_level = 2%nat /\ init_level = 1%nat.
+Proof. repeat split; reflexivity. Qed.
+Print Assumptions C18_thresholds_in_the_source.
+
 Theorem C18_invalid_assignment_level3 : forall O c v, valid O (mkF (f_dt c) v) = false ->
   lstep O 3 c (LSet v) = (c, Err (G EFormat)).
 Proof. exact invalid_assignment_level3. Qed.
